@@ -86,7 +86,13 @@ func lakeQueryVals(ctx context.Context, l *lk.Lake, src string, optimize bool, p
 	select {
 	case r := <-ch:
 		return r.vals, r.err
-	case <-time.After(20 * time.Second):
+	case <-time.After(hangLimit(ctx)):
+		cancel()
+		if !hangConfirming(ctx) {
+			// Not believed yet: a loaded machine can be this slow.  Run it once more on
+			// its own with six times the limit; only a second timeout is a hang.
+			return lakeQueryVals(context.WithValue(ctx, hangKey{}, true), l, src, optimize, parallelism)
+		}
 		return nil, errHang
 	}
 }
